@@ -2,7 +2,7 @@ package main
 
 // C04: "violate exactly one requirement, re-sign everything with the attacker's own attestation key".
 var formatRequirementDevs = map[string][]string{
-	"packed-x5c":        {"x5c.v1", "x5c.isCA", "x5c.noC", "x5c.noO", "x5c.badOU", "x5c.noCN", "x5c.aaguidMismatch", "x5c.aaguidCritical", "x5c.aaguidMalformed", "x5c.empty"},
+	"packed-x5c":        {"x5c.v1", "x5c.isCA", "x5c.noC", "x5c.noO", "x5c.badOU", "x5c.noCN", "x5c.emptyC", "x5c.emptyO", "x5c.emptyCN", "x5c.aaguidMismatch", "x5c.aaguidCritical", "x5c.aaguidMalformed", "x5c.empty"},
 	"packed-self":       {"self.algMismatch", "sig.otherKey"},
 	"fido-u2f":          {"u2f.twoCerts", "u2f.noCerts", "u2f.certP384", "u2f.certRSA", "u2f.credNotEC2"},
 	"tpm":               {"tpm.badMagic", "tpm.badType", "tpm.wrongName", "tpm.nameAlgMismatch", "tpm.nameHandle", "tpm.nameEmpty", "tpm.pubAreaOtherKey", "tpm.v1", "tpm.isCA", "tpm.noEKU", "tpm.noSAN", "tpm.sanUnknownVendor", "tpm.sanNoModel", "tpm.sanNoVersion", "tpm.sanNoManufacturer", "tpm.extraDataOther", "tpm.noCerts"},
@@ -12,9 +12,14 @@ var formatRequirementDevs = map[string][]string{
 }
 
 func attestCase(c *Ctx, stream, format string, devs []string, viaCeremony bool) {
+	attestCaseVar(c, stream, format, devs, viaCeremony, -1)
+}
+
+func attestCaseVar(c *Ctx, stream, format string, devs []string, viaCeremony bool, v int) {
 	r := c.R
 	s := newRegSpec(r, format, pick(r, credAlgsFor(format)))
 	s.AttAlg = pick(r, attAlgsFor(format))
+	s.Var = v
 	name := ""
 	for _, d := range devs {
 		s.Dev[d] = true
@@ -65,6 +70,14 @@ func init() {
 				executors["attest"](c, "req.android-key.ak.schemaStyle.honest", op)
 			}
 		}},
+		Stream{"req.variants", func(c *Ctx) {
+			for _, dv := range []string{"x5c.badOU", "x5c.emptyC", "x5c.emptyO"} {
+				for v := 0; v < 7; v++ {
+					attestCaseVar(c, "req.packed-x5c."+dv, "packed-x5c", []string{dv}, v%2 == 1, v)
+				}
+			}
+		}},
+		Stream{"req.memberProduct", func(c *Ctx) { memberProduct(c, "req.memberProduct") }},
 		Stream{"req.honest", func(c *Ctx) {
 			n := c.N(3, 60)
 			for i := 0; i < n; i++ {
@@ -182,5 +195,53 @@ func cborSkip(b []byte, off int) int {
 		return next
 	default:
 		return cborSkip(b, next)
+	}
+}
+
+// memberProduct: every statement member of every format deleted / replaced by each of a fixed list of values (deterministic product)
+func memberProduct(c *Ctx, prefix string) {
+	// every statement member of every format deleted / replaced by each of a fixed list of values (deterministic product)
+	vals := [][]byte{nil, cborArray(), cborBytes(nil), {0xf6}, cborInt(-7), cborInt(0), cborText(""), cborMap(), cborArray(cborBytes(nil)), cborArray(cborInt(1))}
+	for _, f := range allFormats[1:] {
+		s := newRegSpec(c.R, f, pick(c.R, credAlgsFor(f)))
+		s.AttAlg = pick(c.R, attAlgsFor(f))
+		b := buildRegistration(c.R, s)
+		n, off := cborReadHead(b.Stmt, 0)
+		type kv struct{ k, v []byte }
+		var kvs []kv
+		for i := uint64(0); i < n; i++ {
+			ks := off
+			off = cborSkip(b.Stmt, off)
+			vs := off
+			off = cborSkip(b.Stmt, off)
+			kvs = append(kvs, kv{b.Stmt[ks:vs], b.Stmt[vs:off]})
+		}
+		for i := range kvs {
+			key := string(kvs[i].k[1:])
+			for _, val := range vals {
+				var flat [][]byte
+				for j, e := range kvs {
+					if j == i {
+						if val == nil {
+							continue // member deleted
+						}
+						flat = append(flat, e.k, val)
+					} else {
+						flat = append(flat, e.k, e.v)
+					}
+				}
+				mb := *b
+				mb.Stmt = cborMap(flat...)
+				op := mb.AttestOp(fmtID(f))
+				op["_dev"] = "member-" + key
+				if val != nil && string(val) == string(kvs[i].v) {
+					continue // replacement equals the original value
+				}
+				if key != "ver" {
+					op["_expectOK"] = false // every member other than the version string is needed for acceptance
+				}
+				executors["attest"](c, prefix+"."+f, op)
+			}
+		}
 	}
 }
